@@ -43,6 +43,11 @@ class Sim:
 		self.back = threading.Semaphore(0)
 		self.aborting = False
 		self.preemptions = 0
+		# real pools run a future's done-callbacks in the worker (or queue-management) thread AFTER waking waiters:
+		# a caller blocked in wait()/result() may run before them. With defer_callbacks the callbacks of a completed
+		# future run at the next scheduler step, at pool shutdown(wait=True), or when the simulation ends.
+		self.defer_callbacks = False
+		self.deferred = []
 		self.machine_size = machine_size
 		self.policy = policy
 		self.script = list(script) if script is not None else None
@@ -67,8 +72,16 @@ class Sim:
 		out.sort(key=lambda t: t.tid)
 		return out
 
+	def run_deferred(self):
+		while self.deferred:
+			fut = self.deferred.pop(0)
+			cf.Future._invoke_callbacks(fut)
+
 	def step(self):
 		"""Complete exactly one running task. Returns False if nothing is runnable."""
+		if self.deferred:
+			self.ctx.probe('done_callbacks_ran_after_waiters_woke')
+			self.run_deferred()
 		cands = self._runnable()
 		if not cands:
 			return False
@@ -126,6 +139,12 @@ class Sim:
 	def finish(self):
 		"""Let every parked task thread run to its end (untraced) and join it. Called when the simulation ends."""
 		self.aborting = True
+		if self.deferred:
+			self.ctx.probe('done_callbacks_ran_after_call_returned')
+			try:
+				self.run_deferred()
+			except Exception:
+				pass
 		for p in self.pools:
 			for t in list(p.running) + list(p.queue):
 				th = getattr(t, 'thread', None)
@@ -202,6 +221,12 @@ class SimFuture(cf.Future):
 		if not self.done():
 			self._sim.step_until(self.done, f'future of task {self._tid}')
 		return super().exception(0)
+
+	def _invoke_callbacks(self):
+		if self._sim.defer_callbacks and not self._sim.aborting and self._done_callbacks:
+			self._sim.deferred.append(self)
+		else:
+			super()._invoke_callbacks()
 
 
 class SimExecutor(cf.Executor):
@@ -335,6 +360,7 @@ class SimExecutor(cf.Executor):
 			self.queue = []
 		if wait:
 			self.sim.step_until(lambda: not self.queue and not self.running, 'pool shutdown')
+			self.sim.run_deferred()      # joining the workers: their callbacks have run
 
 
 class SimThreadPoolExecutor(SimExecutor):
